@@ -71,7 +71,7 @@ func (H) ID() string { return "C04" }
 
 // Faults implements core.Harness.
 func (H) Faults() core.FaultMenu {
-	return core.FaultMenu{MapOrder: true, MaxSteps: 3000, PCTSteps: 120}
+	return core.FaultMenu{MapOrder: true, MaxSteps: 12000, PCTSteps: 120}
 }
 
 // Decode implements core.Harness.
